@@ -61,6 +61,13 @@ def opsCtl (st : Option (Cfg × St)) (args : List String) : Option (Option (Cfg 
   | ["astep", dt, rs, ri], some (C, s) => do
       let s' := stepA C s (← parseRat? dt) { sensor := ← parseBits? rs, iswitch := ← parseBits? ri }
       some (some (C, s'), showSt C s')
+  -- ICT-based increment with devices in trouble: dstep dt sensorbits iswitchbits sensExtra sensRepairBits swFailedBits [swfailTime|-] recheckBits
+  | ["dstep", dt, rs, ri, se, sr, sf, sw, rk], some (C, s) => do
+      let cd : CommD := { cm := { sensor := ← parseBits? rs, iswitch := ← parseBits? ri }, sensExtra := ← parseList? parseRat? se, sensRepair := ← parseBits? sr,
+                          recheck := ← parseBits? rk }
+      let s0 := if sw == "-" then some s else (spreadSec C s) <$> parseRat? sw
+      let s' := stepD C (← s0) (← parseRat? dt) cd (← parseBits? sf)
+      some (some (C, s'), showSt C s')
   | ["swfail", t], some (C, s) => do
       let s' := spreadSec C s (← parseRat? t)
       some (some (C, s'), showSt C s')
